@@ -1,4 +1,7 @@
 import DoviModel.Model.RpuWrite
+import DoviModel.Model.Nalu
+import DoviModel.Proofs.PwRpu
+import DoviModel.Props.C13
 /-! # C01 — unmodified RPUs re-encode byte-exactly or fail (theorems added in `Proofs/` as they are completed) -/
 namespace Dovi.C01
 open Dovi
@@ -22,5 +25,67 @@ theorem write_unmodified_crc (r : Rpu) (out : Bytes) (hm : r.modified = false) (
         injection hw with hw
         refine ⟨_, ?_, hc.symm⟩
         rw [← hw, hc]
+
+/-! ## byte-exact re-encoding (parse → write), proved bottom-up in `Proofs/Pw*.lean` -/
+
+/-- **C01, main theorem.** Whenever `DoviRpu::parse` accepts a byte string (prefix-less, emulation-prevention-free
+form, any number of trailing zero bytes) and the unmodified result is written, the write either fails or
+reproduces the input byte for byte — for every accepted input (every profile, coefficient type, any number of
+pivots / pieces / blocks, data before the CRC, …) whose integer coefficient parts are below 2^52 in magnitude.
+That bound is exactly where the third-party `get_se` (which goes through `f64`) stops being injective
+(`PwMap.readSe_rounding_witness`); above it the CRC comparison of the unmodified write is the only guard. -/
+theorem parse_write_exact (bytes out : Bytes) (r : Rpu) (hp : parseRpu bytes = .ok r)
+    (hs : ∀ m, r.rpu_data_mapping = some m → m.seSmall = true) (hw : writeRpu r = .ok out) : out = bytes :=
+  writeRpu_parseRpu bytes out r hp hs hw
+
+/-- the same through `DoviRpu::parse_rpu` (any accepted start-code / NAL-header prefix): the output is the input
+without its prefix -/
+theorem entry_write_exact (data out : Bytes) (r : Rpu) (hp : parseRpuEntry data = .ok r)
+    (hs : ∀ m, r.rpu_data_mapping = some m → m.seSmall = true) (hw : writeRpu r = .ok out) :
+    trimPrefix data = .ok out := by
+  unfold parseRpuEntry at hp
+  cases ht : trimPrefix data with
+  | error => simp [ht, Res.bind] at hp
+  | panic => simp [ht, Res.bind] at hp
+  | ok t =>
+    simp only [ht, Res.bind] at hp
+    rw [writeRpu_parseRpu t out r hp hs hw]
+
+/-- the same through the HEVC NAL entry points: the written NAL is `7C 01` followed by the escaped form of the
+input payload (compared in emulation-prevention-free form), and it is the input byte for byte when the input
+was canonically escaped -/
+theorem nalu_write_exact (d out : Bytes) (r : Rpu) (hp : parseNalu d = .ok r)
+    (hs : ∀ m, r.rpu_data_mapping = some m → m.seSmall = true) (hw : writeNalu r = .ok out) :
+    ∃ t, trimPrefix d = .ok t ∧ out = 0x7C :: 0x01 :: Esc.escape (Esc.unescape t) ∧
+      (∀ b0 xs, b0 ≠ 0 → t = Esc.escape (b0 :: xs) → out = 0x7C :: 0x01 :: t) := by
+  unfold parseNalu at hp
+  cases ht : trimPrefix d with
+  | error => simp [ht, Res.bind] at hp
+  | panic => simp [ht, Res.bind] at hp
+  | ok t =>
+    simp only [ht, Res.bind] at hp
+    unfold writeNalu at hw
+    cases hwr : writeRpu r with
+    | error => simp [hwr, Res.bind] at hw
+    | panic => simp [hwr, Res.bind] at hw
+    | ok o =>
+      simp only [hwr, Res.bind] at hw
+      injection hw with hw
+      have ho := writeRpu_parseRpu (Esc.unescape t) o r hp hs hwr
+      subst ho
+      refine ⟨t, rfl, hw.symm, ?_⟩
+      intro b0 xs h0 hcanon
+      rw [← hw, hcanon, Dovi.C13.unesc_esc b0 xs h0]
+
+/-- the written bytes parse back to the same RPU (write → parse, `C03.write_parse_sound`) whenever the parse
+result has the parser's shape — so for such inputs `parse ∘ write ∘ parse = parse` and, with
+`parse_write_exact`, `write ∘ parse` is the identity on accepted inputs or an error -/
+theorem reparse_same (r : Rpu) (out : Bytes) (hw : writeRpu r = .ok out) (hwf : RpuWfB r = true) (hm : r.modified = false) :
+    parseRpu out = .ok r := by
+  obtain ⟨crc, hp, hc⟩ := parseRpu_writeRpu_dec r out hw hwf
+  rw [hp, hc hm]
+  congr
+  cases r
+  simp_all
 
 end Dovi.C01
